@@ -179,6 +179,35 @@ func ruleC20(prog *Program, rep *Report) {
 			}
 		}
 	}
+	// S-arith: dif and product are copies of one accumulation up to the operator and the accumulator names
+	rep.Rules = append(rep.Rules, "S-arith: the bodies of asm.dif and asm.product are identical after replacing the arithmetic operator, the accumulator names and the function's own name by placeholders: both start from the first argument and switch to floating point the same way")
+	{
+		ask := map[string]string{}
+		apos := map[string]token.Pos{}
+		for _, name := range []string{"dif", "product"} {
+			fd, _ := prog.FuncDecl(Func(pk, name))
+			if fd == nil {
+				rep.Errorf("asm.%s not found", name)
+				continue
+			}
+			s := printNode(prog.Fset, fd.Body)
+			s = regexp.MustCompile(`\b`+name+`\b`).ReplaceAllString(s, "NAME")
+			s = regexp.MustCompile(`\b(idif|ip)\b`).ReplaceAllString(s, "IACC")
+			s = regexp.MustCompile(`\b(fdif|fp)\b`).ReplaceAllString(s, "FACC")
+			s = regexp.MustCompile(`(-=|\*=)`).ReplaceAllString(s, "OP=")
+			s = regexp.MustCompile(`\) (-|\*) `).ReplaceAllString(s, ") OP ")
+			s = regexp.MustCompile(`"[^"]*"`).ReplaceAllString(s, "STR") // the wording of the error message
+			ask[name] = wsRe.ReplaceAllString(s, " ")
+			apos[name] = fd.Pos()
+		}
+		if len(ask) == 2 {
+			if ask["dif"] == ask["product"] {
+				rep.Discharge("S-arith", "asm.dif=product", prog.Pos(apos["dif"]), "copies up to the operator")
+			} else {
+				rep.Violate(Finding{Rule: "S-arith", Key: "asm.dif=product", Pos: prog.Pos(apos["product"]), Msg: "asm.dif and asm.product are no longer copies of one accumulation up to the operator: one of them treats the first argument or the switch to floating point differently"})
+			}
+		}
+	}
 	// M-fresh: sort.* only on memory allocated in the activation
 	rep.Rules = append(rep.Rules, "M-fresh: every slice passed to a sort.* function in package asm is a local whose defining assignments are all make(...) (followed by copy): a slice derived from an argument (append(x[:0], x...), x[:], the argument itself) is the caller's data under $.src")
 	sorts := 0
